@@ -56,7 +56,7 @@ class C01(common.Prop):
         out = {"write": pg.strip_err(w), "reads": {}}
         case["_impl_write"] = w
         if w[0] == "ok":
-            for st in ("empty", "same", "other"):
+            for st in ("empty", "same", "other", "twin"):
                 pg.set_memo(st, other_bytes=self.other, same_bytes=w[1])
                 r, _ = pg.impl_read(w[1])
                 out["reads"][st] = pg.strip_err(r)
@@ -70,7 +70,8 @@ class C01(common.Prop):
         out = {"write": w, "reads": {}}
         if w[0] == "ok":
             f = w[1]
-            for st, pre in (("empty", []), ("same", [[0, f, pg.args_tree(None)]]), ("other", [[0, self.other, pg.args_tree(None)]])):
+            for st, pre in (("empty", []), ("same", [[0, f, pg.args_tree(None)]]), ("other", [[0, self.other, pg.args_tree(None)]]),
+                            ("twin", [[0, list(pg.twin_bytes(f)), pg.args_tree(None)]])):
                 rep = runner.ask([4, pre + [[0, f, pg.args_tree(None)]]])
                 last = rep[-1]
                 out["reads"][st] = pg.result_of_tree(last[0], pg.pose_of_tree)
